@@ -225,3 +225,89 @@ pub fn coldstart(threads: usize, seed: u64) -> i32 {
         10
     }
 }
+
+/// Cold start of the other public entry points: `kind` = "hijri" | "parse" | "qibla". `threads` threads (with
+/// `stack_kib` KiB of stack each, 0 = default) are released together and make the process's FIRST calls of that
+/// API; results are judged against the reference models. Exit 0 = fine, 10 = wrong result / panic (detail on
+/// stdout). A stack overflow or abort kills the process (the orchestrator reports the signal).
+pub fn coldstart_other(kind: &str, threads: usize, seed: u64, stack_kib: usize) -> i32 {
+    use std::sync::{Arc, Barrier};
+    let barrier = Arc::new(Barrier::new(threads));
+    let mut hs = vec![];
+    for t in 0..threads {
+        let b = barrier.clone();
+        let kind = kind.to_string();
+        let mut builder = std::thread::Builder::new();
+        if stack_kib > 0 {
+            builder = builder.stack_size(stack_kib * 1024);
+        }
+        hs.push(
+            builder
+                .spawn(move || {
+                    let mut r = Rng::new(seed, 778, t as u64);
+                    let mut bad: Vec<String> = vec![];
+                    match kind.as_str() {
+                        "hijri" => {
+                            let d = from_ce(r.int(ce(ymd(1, 1, 1)) as i64, ce(ymd(9999, 12, 31)) as i64) as i32);
+                            b.wait();
+                            match super::guarded(|| {
+                                let h = HijriDate::from(d);
+                                (h.year(), h.pre_epoch(), h.month() as u32, h.day() as u32, h.to_string())
+                            }) {
+                                Ok((y, bh, m, dd, _)) => {
+                                    let want = crate::oracle::tabular(d);
+                                    if (y, bh, m, dd) != want {
+                                        bad.push(format!("{d}: got {:?} want {:?}", (y, bh, m, dd), want));
+                                    }
+                                }
+                                Err(pm) => bad.push(format!("{d}: {pm}")),
+                            }
+                        }
+                        "parse" => {
+                            let texts = ["1e9", "-181", "8848.5", "45", "nan", "12.5", "-12.01", "", "91"];
+                            let t0 = texts[(r.next() % texts.len() as u64) as usize];
+                            b.wait();
+                            match super::guarded(|| (t0.parse::<Latitude>().is_ok(), t0.parse::<Longitude>().is_ok(), t0.parse::<Elevation>().is_ok(), t0.parse::<Gmt>().is_ok(), serde_json::from_str::<Pressure>(t0).is_ok())) {
+                                Ok((la, lo, el, g, _)) => {
+                                    let v: Option<f64> = t0.parse::<f64>().ok().filter(|x| x.is_finite());
+                                    let want = |lo_: f64, hi_: f64| v.map(|x| x >= lo_ && x <= hi_).unwrap_or(false);
+                                    if (la, lo, el, g) != (want(-90.0, 90.0), want(-180.0, 180.0), want(-420.0, 8848.0), want(-12.0, 12.0)) {
+                                        bad.push(format!("text {t0:?}: accepted as (lat, lon, elev, gmt) = {:?}", (la, lo, el, g)));
+                                    }
+                                }
+                                Err(pm) => bad.push(format!("text {t0:?}: {pm}")),
+                            }
+                        }
+                        _ => {
+                            let (la, lo) = (r.range(-89.0, 89.0), r.range(-180.0, 180.0));
+                            b.wait();
+                            match super::guarded(|| Qibla::new(Coordinates::new(lat(la), Longitude::try_from(lo).unwrap(), Elevation::try_from(0.0).unwrap())).degrees()) {
+                                Ok(deg) => {
+                                    let want = crate::oracle::qibla_bearing(la, lo);
+                                    if crate::oracle::ang_dist(la, lo, crate::oracle::KAABA_LAT, crate::oracle::KAABA_LON) > 0.1 && crate::oracle::norm180(deg - want).abs() > 1e-6 {
+                                        bad.push(format!("qibla at {la} {lo}: got {deg} want {want}"));
+                                    }
+                                }
+                                Err(pm) => bad.push(format!("qibla at {la} {lo}: {pm}")),
+                            }
+                        }
+                    }
+                    bad
+                })
+                .expect("spawn"),
+        );
+    }
+    let mut bad = vec![];
+    for h in hs {
+        match h.join() {
+            Ok(v) => bad.extend(v),
+            Err(_) => bad.push("thread died".into()),
+        }
+    }
+    if bad.is_empty() {
+        0
+    } else {
+        println!("{}", serde_json::json!({"failures": bad}));
+        10
+    }
+}
